@@ -730,6 +730,22 @@ def _corr_truncate(R, ctx, tn):
             e = 0.0
             dist['e_zero'] = dist.get('e_zero', 0) + 1
         nrm = _fnorm(_full(Y))
+        mrel = 1e-6
+        if rng.random() < 0.14:
+            # massive cancellation: Y = A - B, B = A + 2^-k D; the tensor is 2^-k of the size of its cores.  Model and
+            # implementation round the last core differently at the level eps * (component scale), so thresholds are kept
+            # away by that relative amount and values are compared at that level
+            A_, D_, k_ = _gen_cancel(rng, nprng)
+            A_, B_, T_, S_ = _cancel_parts(A_, D_, k_)
+            if _fnorm(T_) == 0:
+                continue
+            Y = [np.array(G, float) for G in tn.sub(A_, B_)]
+            d = len(Y)
+            fam, orth, r = 'cancel 2^-%d' % k_, True, 1.E+12
+            e = rng.choice([0.3, 0.1, 1e-2])
+            nrm = max(_fnorm(T_), 1e-5 * S_)
+            mrel = max(1e-6, 64 * 2.0 ** -53 * S_ / _fnorm(T_))
+            dist['cancellation'] = dist.get('cancellation', 0) + 1
         if not orth:
             e = e * (nrm if nrm > 0 else 1.0)
         err = 0
@@ -743,7 +759,7 @@ def _corr_truncate(R, ctx, tn):
         if err:
             dist['errors'] += 1
             continue        # property inputs are valid tensors: an exception here is reported by search()
-        if not _margin_ok(c):
+        if not _margin_ok(c, mrel):
             dist['resampled_margin'] += 1
             continue
         ncontract += 1
@@ -1345,6 +1361,76 @@ def _crosscut_inputs(rng, nprng, deep):
     return out
 
 
+# ----------------------------------------------------------------------------------------------------
+# massive cancellation: Y = A - B with B = A + 2^-k D (integer cores A, D): cores of size O(1), tensor of size 2^-k,
+# exact dense reference from integer arithmetic
+# ----------------------------------------------------------------------------------------------------
+
+def _cancel_parts(A, D, k):
+    """(Y as teneva builds it, exact dense Y, component scale S)"""
+    A = [np.array(G, float) for G in A]
+    D = [np.array(G, float) for G in D]
+    B = [a + np.ldexp(dd, -k) for a, dd in zip(A, D)]
+    Ai = [np.array(np.ldexp(G, k).astype(np.int64).tolist(), dtype=object) for G in A]
+    Bi = [a + np.array(Dg.astype(np.int64).tolist(), dtype=object) for a, Dg in zip(Ai, D)]
+
+    def full(Yo):
+        Z = Yo[0][0]
+        for G in Yo[1:]:
+            Z = np.tensordot(Z, G, axes=([-1], [0]))
+        return Z[..., 0]
+    F = full(Ai) - full(Bi)
+    den = 2 ** (k * len(A))
+    T = np.array([int(x) / den for x in F.ravel()], float).reshape(F.shape)
+    S = _fnorm(_full(A)) + _fnorm(_full(B))
+    return A, B, T, S
+
+
+def _gen_cancel(rng, nprng):
+    d = rng.randint(2, 4)
+    n = [rng.randint(2, 4) for _ in range(d)]
+    r = [1] + [rng.randint(1, 3) for _ in range(d - 1)] + [1]
+    A = [nprng.integers(-3, 4, size=(r[j], n[j], r[j + 1])).astype(float) for j in range(d)]
+    D = [nprng.integers(-3, 4, size=(r[j], n[j], r[j + 1])).astype(float) for j in range(d)]
+    return A, D, rng.choice([20, 27, 33, 40])
+
+
+def _check_cancel(tn, inp):
+    """error <= e*|Y| against the EXACT |Y|, shape, and the minimal-rank clause, for Y = sub(A, B), B almost equal to A"""
+    fails = []
+    A = [np.array(fl, float).reshape(sh) for sh, fl in inp['A']]
+    D = [np.array(fl, float).reshape(sh) for sh, fl in inp['D']]
+    k, us, ie = inp['k'], inp['use_stab'], inp['is_eigh']
+    e = float.fromhex(inp['e'])
+    A, B, T, S = _cancel_parts(A, D, k)
+    nY = _fnorm(T)
+    if nY == 0:
+        return []
+    d = len(A)
+    try:
+        with np.errstate(all='ignore'):
+            Y = tn.sub([G.copy() for G in A], [G.copy() for G in B])
+            Z = tn.truncate(Y, e, 1.E+12, True, us, ie)
+    except Exception as ex:  # noqa
+        return [('cancellation: raises', repr(ex)[:150], 'a tensor')]
+    if _shape(Z) != _shape(A) or not all(np.all(np.isfinite(G)) for G in Z):
+        return [('cancellation: shape / finiteness', [list(G.shape) for G in Z], _shape(A))]
+    fl = 256 * 2.0 ** -53 * S              # rounding of the representation itself (component scale)
+    err = _fnorm(T - _full(Z))
+    bound = e * nY * (1 + 1e-6) + fl
+    if not err <= bound:
+        fails.append(('cancellation: error <= e*norm (exact norm)', [err, err / nY], bound))
+    rk = _ranks(Z)
+    bud2 = max((e * nY) ** 2 / (d - 1) * (1 - 1e-3) - (d * fl) ** 2 - 2 * d * fl * e * nY, 0.0)
+    for j in range(1, d):
+        sv = _unfold_svals(T, j)
+        tails = np.concatenate([np.cumsum((sv ** 2)[::-1])[::-1], [0.0]])
+        rho = max(1, int(np.argmax(tails <= bud2))) if np.any(tails <= bud2) else len(sv)
+        if rk[j] > rho:
+            fails.append((f'cancellation: rank {j} <= smallest rank meeting the budget', rk[j], rho))
+    return fails
+
+
 def _fail(what, kind, **inp):
     f = dict(what=f'C02 {kind}: {what[0]}', input=dict(kind=kind, **inp), got=what[1], expected=what[2])
     if len(what) > 3 and what[3]:
@@ -1378,6 +1464,8 @@ def _run_payload(tn, inp):
         return _check_scale(tn, inp)
     if kind == 'tie':
         return _check_tie(tn, inp)
+    if kind == 'cancel':
+        return _check_cancel(tn, inp)
     return []
 
 
@@ -1392,7 +1480,10 @@ def search(R, ctx, deep, hints):
     def run(inp):
         nonlocal nev
         nev += 1
-        fs = _run_payload(tn, inp)
+        try:
+            fs = _run_payload(tn, inp)
+        except Exception as ex:  # noqa  (an exception escaping from the implementation is a failure of that input)
+            fs = [('raises', repr(ex)[:200], 'a tensor')]
         for f in fs[:2]:
             ff = _fail(f, inp['kind'], **{k: v for k, v in inp.items() if k != 'kind'})
             (known if 'finding_key' in ff else fails).append(ff)
@@ -1419,6 +1510,16 @@ def search(R, ctx, deep, hints):
             break
         run(inp)
         n_cc += 1
+    # massive cancellation (tensor far smaller than its cores), exact reference
+    for _ in range(40 if deep else 12):
+        if len(fails) >= 8:
+            break
+        A_, D_, k_ = _gen_cancel(rng, nprng)
+        for us_, ie_ in ((False, True), (False, False), (True, rng.random() < 0.5)):
+            run(dict(kind='cancel', A=[[list(G.shape), G.ravel().tolist()] for G in A_],
+                     D=[[list(G.shape), G.ravel().tolist()] for G in D_], k=k_,
+                     e=float(rng.choice([0.3, 0.1, 1e-2] + ([1e-3] if k_ <= 27 else []))).hex(), use_stab=us_, is_eigh=ie_))
+            n_cc += 1
     # degenerate families first, all four flag combinations
     fams = ['zero', 'rank1', 'n1', 'overranked', 'deficient', 'cluster', 'big', 'small', 'int', 'decay', 'generic']
     reps = 6 if deep else 2
@@ -1497,7 +1598,10 @@ def replay(data):
     if not isinstance(inp, dict) or 'kind' not in inp:
         print('replay: no failing input recorded in this file')
         return 1
-    fs = _run_payload(tn, inp)
+    try:
+        fs = _run_payload(tn, inp)
+    except Exception as ex:  # noqa
+        fs = [('raises', repr(ex)[:200], 'a tensor')]
     for f in fs:
         print('still fails:', f)
     return 1 if fs else 0
